@@ -533,3 +533,66 @@ def input_to_dict(rows):
 
 def show_input(prog, rows):
     return [(rel, [t.show(v) for t, v in zip(prog.rel(rel).tys, tup)]) for rel, tup in rows]
+
+
+# ------------------------------------------------------------------------------------------------
+# programs without interpreted functions (only equality on constants and variables): C06's constant re-mapping
+
+
+def gen_pure_program(rng, dom=4, neg=True):
+    nrel = rng.randint(3, 6)
+    n_in = rng.randint(1, min(3, nrel - 1))
+    rels = [Rel('r%d' % i, [T.I32] * rng.choice([1, 2, 2, 2, 3])) for i in range(nrel)]
+    level = {r.name: (0 if i < n_in else rng.randint(1, 3)) for i, r in enumerate(rels)}
+    input_rels = [r.name for r in rels[:n_in]]
+    derived = [r.name for r in rels[n_in:]]
+    byname = {r.name: r for r in rels}
+    rules = []
+    heads_order = list(derived)
+    while len(heads_order) < max(len(derived), rng.randint(3, 8)):
+        heads_order.append(rng.choice(derived))
+    rng.shuffle(heads_order)
+    for h in heads_order:
+        fresh = Fresh()
+        bound = []
+        body = []
+        pos = [n for n in byname if level[n] <= level[h]]
+        lower = [n for n in byname if level[n] < level[h]]
+        if rng.random() < 0.08:
+            rules.append(Rule([Head(h, [K(rng.randrange(dom)) for _ in byname[h].tys])], []))
+            continue
+        for ci in range(rng.choice([1, 2, 2, 3, 3])):
+            rn = rng.choice(pos)
+            args, new = [], []
+            for _ in byname[rn].tys:
+                r = rng.random()
+                if r < 0.35 and bound:
+                    args.append(AVar(rng.choice(bound)))
+                elif r < 0.7:
+                    v = fresh.new(rng)
+                    args.append(AVar(v))
+                    new.append(v)
+                elif r < 0.78 and new:
+                    args.append(AVar(rng.choice(new)))
+                elif r < 0.88:
+                    args.append(AWild())
+                else:
+                    args.append(AExpr(K(rng.randrange(dom))))
+            conds = []
+            allv = bound + new
+            if allv and rng.random() < 0.3:
+                a = V(rng.choice(allv))
+                b = V(rng.choice(allv)) if rng.random() < 0.5 else K(rng.randrange(dom))
+                conds.append(If(Cmp(rng.choice(['==', '!=', '!=']), a, b)))
+            body.append(Clause(rn, args, conds))
+            bound += new
+            if neg and lower and bound and rng.random() < 0.2:
+                nr = rng.choice(lower)
+                body.append(Neg(nr, [AVar(rng.choice(bound)) if rng.random() < 0.7 else (AWild() if rng.random() < 0.5 else AExpr(K(rng.randrange(dom)))) for _ in byname[nr].tys]))
+        hargs = [V(rng.choice(bound)) if bound and rng.random() < 0.8 else K(rng.randrange(dom)) for _ in byname[h].tys]
+        heads = [Head(h, hargs)]
+        if rng.random() < 0.15:
+            h2 = rng.choice([d for d in derived if level[d] >= level[h]])
+            heads.append(Head(h2, [V(rng.choice(bound)) if bound and rng.random() < 0.8 else K(rng.randrange(dom)) for _ in byname[h2].tys]))
+        rules.append(Rule(heads, body))
+    return Program(rels, rules), input_rels
